@@ -244,6 +244,8 @@ def parse_rvalue(s):
         if m:
             return ('cast', parse_operand(m.group(1)), m.group(2), m.group(3))
         return ('use', parse_operand(s))
+    if s.startswith('&raw const (fake) '):
+        return ('ref', parse_place(s[18:])[0], 'raw')
     if s.startswith('&raw const '):
         return ('ref', parse_place(s[11:])[0], 'raw')
     if s.startswith('&raw mut '):
